@@ -34,6 +34,13 @@ pub struct Seg {
     /// short reads: at most this many bytes per read call (0 = no limit)
     #[serde(default)]
     pub read_cap: usize,
+    /// transport-level events that carry no byte of the stream, placed around
+    /// this chunk (websocket arm: 1 = a ping precedes the message, 2 = an
+    /// unsolicited pong precedes it, 3 = the message travels as two fragments,
+    /// 4 = an empty binary message precedes it, 5 = two fragments with a ping
+    /// in between; UDP arm: 4 = an empty datagram precedes this one)
+    #[serde(default)]
+    pub ctl: u8,
 }
 
 #[derive(Clone, Debug, Serialize, Deserialize, PartialEq)]
@@ -173,6 +180,7 @@ pub struct SimDatagrams {
     segs: Vec<Seg>,
     seg_i: usize,
     ready_at: Option<u64>,
+    empty_sent: bool,
     end: End,
     pub stats: Arc<Mutex<PipeStats>>,
 }
@@ -202,6 +210,13 @@ impl futures_util::stream::Stream for SimDatagrams {
             exec::wake_at(at, cx.waker().clone());
             return Poll::Pending;
         }
+        if seg.ctl == 4 && !this.empty_sent {
+            // a datagram without payload comes first
+            this.empty_sent = true;
+            exec::log_u64(0xDA00_0000);
+            return Poll::Ready(Some(Ok(Vec::new())));
+        }
+        this.empty_sent = false;
         this.ready_at = None;
         this.seg_i += 1;
         let n = seg.len.min(this.data.len() - this.pos);
@@ -224,16 +239,9 @@ impl futures_util::stream::Stream for SimDatagrams {
 /// segment becomes one unmasked binary message (FIN set); the byte stream is
 /// delivered message by message with the segment's delay and read cap.
 fn websocket_wire(data: &[u8], segs: &[Seg]) -> (Vec<u8>, Vec<Seg>) {
-    let mut wire = Vec::new();
-    let mut out = Vec::new();
-    let mut pos = 0usize;
-    for s in segs {
-        let n = s.len.min(data.len() - pos);
-        if n == 0 {
-            continue;
-        }
-        let start = wire.len();
-        wire.push(0x82);
+    fn frame(wire: &mut Vec<u8>, first_byte: u8, payload: &[u8]) {
+        let n = payload.len();
+        wire.push(first_byte);
         if n < 126 {
             wire.push(n as u8);
         } else if n < 65536 {
@@ -243,9 +251,39 @@ fn websocket_wire(data: &[u8], segs: &[Seg]) -> (Vec<u8>, Vec<Seg>) {
             wire.push(127);
             wire.extend_from_slice(&(n as u64).to_be_bytes());
         }
-        wire.extend_from_slice(&data[pos..pos + n]);
+        wire.extend_from_slice(payload);
+    }
+    // a control payload that would read as the start of a Beast frame if it
+    // ever found its way into the reassembly buffer
+    const CTL_PAYLOAD: [u8; 3] = [0x1a, 0x33, 0x1a];
+    let mut wire = Vec::new();
+    let mut out = Vec::new();
+    let mut pos = 0usize;
+    for s in segs {
+        let n = s.len.min(data.len() - pos);
+        if n == 0 {
+            continue;
+        }
+        let start = wire.len();
+        let msg = &data[pos..pos + n];
+        match s.ctl {
+            1 => frame(&mut wire, 0x89, &CTL_PAYLOAD),
+            2 => frame(&mut wire, 0x8a, &CTL_PAYLOAD),
+            4 => frame(&mut wire, 0x82, &[]),
+            _ => {}
+        }
+        if (s.ctl == 3 || s.ctl == 5) && n >= 2 {
+            // binary, FIN clear; [ping]; continuation, FIN set
+            frame(&mut wire, 0x02, &msg[..n / 2]);
+            if s.ctl == 5 {
+                frame(&mut wire, 0x89, &CTL_PAYLOAD);
+            }
+            frame(&mut wire, 0x80, &msg[n / 2..]);
+        } else {
+            frame(&mut wire, 0x82, msg);
+        }
         pos += n;
-        out.push(Seg { len: wire.len() - start, delay_ns: s.delay_ns, spurious: s.spurious, read_cap: s.read_cap });
+        out.push(Seg { len: wire.len() - start, delay_ns: s.delay_ns, spurious: s.spurious, read_cap: s.read_cap, ctl: 0 });
     }
     (wire, out)
 }
@@ -266,7 +304,7 @@ async fn open_source(transport: u8, wire: Arc<Vec<u8>>, segs: Vec<Seg>, end: End
         2 => {
             let stats = Arc::new(Mutex::new(PipeStats::default()));
             *stats_out.borrow_mut() = Some(stats.clone());
-            let d = SimDatagrams { data: wire, pos: 0, segs, seg_i: 0, ready_at: None, end, stats };
+            let d = SimDatagrams { data: wire, pos: 0, segs, seg_i: 0, ready_at: None, empty_sent: false, end, stats };
             verif_net::register(SIM_ADDR, Peer::Udp(Box::pin(d)));
             DataSource::Udp(verif_net::UdpSocket::bind(SIM_ADDR).await.expect("simulated bind"))
         }
@@ -288,17 +326,18 @@ async fn open_source(transport: u8, wire: Arc<Vec<u8>>, segs: Vec<Seg>, end: End
     }
 }
 
-/// A datagram longer than the reader's buffer is cut by the socket layer
-/// before any read chunk exists: the UDP arm is offered datagrams of at most
-/// 1024 bytes.
-fn datagram_sized(segs: &[Seg]) -> Vec<Seg> {
+/// One chunk = one datagram, of at most `max` bytes (what the sender's path
+/// carries: 1472 on Ethernet, 8972 with jumbo frames, 65507 at most); a
+/// longer chunk travels as several datagrams.
+fn datagram_sized(segs: &[Seg], max: usize) -> Vec<Seg> {
+    let max = max.max(1);
     let mut out = Vec::new();
     for s in segs {
         let mut left = s.len;
         let mut first = true;
         while left > 0 {
-            let n = left.min(1024);
-            out.push(Seg { len: n, delay_ns: if first { s.delay_ns } else { 0 }, spurious: false, read_cap: 0 });
+            let n = left.min(max);
+            out.push(Seg { len: n, delay_ns: if first { s.delay_ns } else { 0 }, spurious: false, read_cap: 0, ctl: if first { s.ctl } else { 0 } });
             first = false;
             left -= n;
         }
@@ -336,9 +375,27 @@ pub struct C09Plan {
     /// simulated sockets of hook H8
     #[serde(default)]
     pub transport: u8,
+    /// UDP arm: the largest datagram the sender's path carries
+    #[serde(default = "default_dgram_max")]
+    pub dgram_max: usize,
+    /// Sweep mode on the websocket / UDP arm: the transport-level event
+    /// (`Seg::ctl`) placed in front of the last chunk of every delivery
+    #[serde(default)]
+    pub sweep_ctl: u8,
+}
+
+fn default_dgram_max() -> usize {
+    1024
 }
 
 pub struct C09;
+
+fn segs_of(p: &mut C09Plan) -> &mut [Seg] {
+    match &mut p.mode {
+        Mode::Explicit { segs, .. } => segs,
+        _ => &mut [],
+    }
+}
 
 fn frame_len(ty: u8) -> usize {
     match ty {
@@ -499,10 +556,10 @@ struct ExecResult {
     log: u64,
 }
 
-fn run_once(transport: u8, wire: &Arc<Vec<u8>>, segs: &[Seg], end: &End, sched: &SchedSpec) -> ExecResult {
+fn run_once(transport: u8, dgram_max: usize, wire: &Arc<Vec<u8>>, segs: &[Seg], end: &End, sched: &SchedSpec) -> ExecResult {
     let mut sim = Sim::new(sched);
     rs1090::source::verif_net::clear();
-    let segs: Vec<Seg> = if transport == 2 { datagram_sized(segs) } else { segs.to_vec() };
+    let segs: Vec<Seg> = if transport == 2 { datagram_sized(segs, dgram_max) } else { segs.to_vec() };
     let stats_slot: Rc<RefCell<Option<Arc<Mutex<PipeStats>>>>> = Rc::new(RefCell::new(None));
     let nsegs = segs.len();
     let items: Rc<RefCell<Vec<Vec<u8>>>> = Rc::new(RefCell::new(Vec::new()));
@@ -628,17 +685,28 @@ fn judge(st: &Stream, r: &ExecResult, reference: Option<&Vec<Vec<u8>>>, k: usize
     None
 }
 
+/// Sweep deliveries on the websocket / UDP arm: the plan's transport-level
+/// event goes in front of the last chunk
+fn with_ctl(mut segs: Vec<Seg>, plan: &C09Plan) -> Vec<Seg> {
+    if plan.sweep_ctl != 0 && (plan.transport == 2 || plan.transport == 3) {
+        if let Some(s) = segs.last_mut() {
+            s.ctl = plan.sweep_ctl;
+        }
+    }
+    segs
+}
+
 fn segs_from_cuts(total: usize, cuts: &[usize]) -> Vec<Seg> {
     let mut segs = Vec::new();
     let mut prev = 0;
     for &c in cuts {
         if c > prev && c < total {
-            segs.push(Seg { len: c - prev, delay_ns: 0, spurious: false, read_cap: 0 });
+            segs.push(Seg { len: c - prev, delay_ns: 0, spurious: false, read_cap: 0, ctl: 0 });
             prev = c;
         }
     }
     if total > prev {
-        segs.push(Seg { len: total - prev, delay_ns: 0, spurious: false, read_cap: 0 });
+        segs.push(Seg { len: total - prev, delay_ns: 0, spurious: false, read_cap: 0, ctl: 0 });
     }
     segs
 }
@@ -652,10 +720,10 @@ fn random_segs(rng: &mut Rng, total: usize) -> Vec<Seg> {
         // remainder comes first, so that the last read is a full one
         let first = total % 1024;
         if first > 0 {
-            segs.push(Seg { len: first, delay_ns: 0, spurious: false, read_cap: 0 });
+            segs.push(Seg { len: first, delay_ns: 0, spurious: false, read_cap: 0, ctl: 0 });
         }
         for _ in 0..total / 1024 {
-            segs.push(Seg { len: 1024, delay_ns: if rng.chance(0.3) { 1_000_000 } else { 0 }, spurious: false, read_cap: 0 });
+            segs.push(Seg { len: 1024, delay_ns: if rng.chance(0.3) { 1_000_000 } else { 0 }, spurious: false, read_cap: 0, ctl: 0 });
         }
         return segs;
     }
@@ -679,6 +747,7 @@ fn random_segs(rng: &mut Rng, total: usize) -> Vec<Seg> {
             delay_ns,
             spurious: delay_ns > 0 && rng.chance(0.4),
             read_cap: if rng.chance(0.1) { rng.usize(1, 40) } else { 0 },
+            ctl: 0,
         });
         left -= len;
     }
@@ -779,13 +848,23 @@ fn one(
         return None;
     }
     let k: usize = segs.iter().map(|s| s.len).sum::<usize>().min(st.wire.len());
-    let r = run_once(plan.transport, &st.wire, &segs, &end, &plan.sched);
+    let r = run_once(plan.transport, plan.dgram_max, &st.wire, &segs, &end, &plan.sched);
     t.count(match plan.transport { 1 => "arm_tcp", 2 => "arm_udp", 3 => "arm_websocket", _ => "arm_verif" }, 1);
     t.evals += 1;
     t.sim_ns += r.sim_ns;
     t.steps += r.steps;
     t.log.u64(r.log);
     let inside = classify_cuts(st, &segs, t);
+    if plan.transport == 3 {
+        for s in &segs {
+            t.count(match s.ctl { 1 => "ws_ping", 2 => "ws_pong", 3 => "ws_fragmented", 4 => "empty_message", 5 => "ws_ping_between_fragments", _ => continue }, 1);
+        }
+    }
+    if plan.transport == 2 {
+        t.count("empty_message", segs.iter().filter(|s| s.ctl == 4).count() as u64);
+        let big = segs.iter().filter(|s| s.len.min(plan.dgram_max) > 1024).count() as u64;
+        t.count("udp_datagram_gt_1024", big);
+    }
     match end {
         End::Eof => t.count("eof", 1),
         End::Reset(_) => t.count("reset", 1),
@@ -798,14 +877,16 @@ fn one(
         sig.u64(s.len as u64);
         sig.u64(s.delay_ns);
         sig.u64(s.read_cap as u64 * 2 + s.spurious as u64);
+        sig.u64(s.ctl as u64);
     }
+    sig.u64(plan.dgram_max as u64);
     sig.u64(match end {
         End::Open => 0,
         End::Eof => 1,
         End::Reset(k) => 2 + k as u64,
     });
     t.sigs.push(sig.0);
-    let faulty = inside || end != End::Open || segs.iter().any(|s| s.delay_ns > 0 || s.read_cap > 0);
+    let faulty = inside || end != End::Open || segs.iter().any(|s| s.delay_ns > 0 || s.read_cap > 0 || s.ctl > 0);
     if faulty && !r.items.is_empty() {
         t.nontrivial.push(sig.0);
     }
@@ -834,8 +915,8 @@ pub fn execute(plan: &C09Plan) -> Outcome<C09Plan> {
         log: Fnv::new(),
     };
     // reference execution: the whole stream in one piece (real code, not a model)
-    let whole = vec![Seg { len: total, delay_ns: 0, spurious: false, read_cap: 0 }];
-    let refr = run_once(plan.transport, &st.wire, &whole, &End::Open, &SchedSpec::fifo());
+    let whole = vec![Seg { len: total, delay_ns: 0, spurious: false, read_cap: 0, ctl: 0 }];
+    let refr = run_once(plan.transport, plan.dgram_max, &st.wire, &whole, &End::Open, &SchedSpec::fifo());
     t.evals += 1;
     let mut found: Option<(Violation, C09Plan)> = None;
     if let Some(v) = judge(&st, &refr, None, total, &End::Open) {
@@ -852,7 +933,7 @@ pub fn execute(plan: &C09Plan) -> Outcome<C09Plan> {
             Mode::Sweep { double, ends } => {
                 'sweep: {
                     for c in 1..total {
-                        if let Some(f) = one(&st, plan, segs_from_cuts(total, &[c]), End::Open, &reference, &mut t) {
+                        if let Some(f) = one(&st, plan, with_ctl(segs_from_cuts(total, &[c]), plan), End::Open, &reference, &mut t) {
                             found = Some(f);
                             break 'sweep;
                         }
@@ -860,7 +941,7 @@ pub fn execute(plan: &C09Plan) -> Outcome<C09Plan> {
                     if *double {
                         for c1 in 1..total {
                             for c2 in c1 + 1..total {
-                                if let Some(f) = one(&st, plan, segs_from_cuts(total, &[c1, c2]), End::Open, &reference, &mut t) {
+                                if let Some(f) = one(&st, plan, with_ctl(segs_from_cuts(total, &[c1, c2]), plan), End::Open, &reference, &mut t) {
                                     found = Some(f);
                                     break 'sweep;
                                 }
@@ -878,7 +959,7 @@ pub fn execute(plan: &C09Plan) -> Outcome<C09Plan> {
                                 if k == 0 {
                                     segs.clear();
                                 }
-                                if let Some(f) = one(&st, plan, segs, e, &reference, &mut t) {
+                                if let Some(f) = one(&st, plan, with_ctl(segs, plan), e, &reference, &mut t) {
                                     found = Some(f);
                                     break 'sweep;
                                 }
@@ -891,6 +972,19 @@ pub fn execute(plan: &C09Plan) -> Outcome<C09Plan> {
                 let mut rng = Rng::new(*seed);
                 for _ in 0..*n {
                     let mut segs = random_segs(&mut rng, total);
+                    if plan.transport == 3 {
+                        for s in segs.iter_mut() {
+                            if rng.chance(0.15) {
+                                s.ctl = rng.usize(1, 5) as u8;
+                            }
+                        }
+                    } else if plan.transport == 2 {
+                        for s in segs.iter_mut() {
+                            if rng.chance(0.1) {
+                                s.ctl = 4;
+                            }
+                        }
+                    }
                     let end = match rng.below(10) {
                         0 => End::Eof,
                         1 => End::Reset(rng.below(4) as u8),
@@ -1008,6 +1102,8 @@ impl Scenario for C09 {
                 6..=7 => 2,
                 _ => 3,
             },
+            dgram_max: *rng.pick(&[1024usize, 1024, 508, 1200, 1472, 1472, 4096, 8972, 65507]),
+            sweep_ctl: if rng.chance(0.5) { rng.below(6) as u8 } else { 0 },
         }
     }
     fn execute(&self, plan: &C09Plan) -> Outcome<C09Plan> {
@@ -1086,6 +1182,29 @@ impl Scenario for C09 {
             q.mode = Mode::Explicit { segs: ns, end: end.clone() };
             out.push(q);
         }
+        if segs.iter().any(|s| s.ctl > 0) {
+            let mut ns = segs.clone();
+            for s in ns.iter_mut() {
+                s.ctl = 0;
+            }
+            let mut q = p.clone();
+            q.mode = Mode::Explicit { segs: ns, end: end.clone() };
+            out.push(q);
+            for i in 0..segs.len() {
+                if segs[i].ctl > 0 {
+                    let mut ns = segs.clone();
+                    ns[i].ctl = 0;
+                    let mut q = p.clone();
+                    q.mode = Mode::Explicit { segs: ns, end: end.clone() };
+                    out.push(q);
+                }
+            }
+        }
+        if p.transport == 2 && p.dgram_max > 1024 {
+            let mut q = p.clone();
+            q.dgram_max = 1024;
+            out.push(q);
+        }
         if *end != End::Open && offered >= st.wire.len() {
             let mut q = p.clone();
             q.mode = Mode::Explicit { segs: segs.clone(), end: End::Open };
@@ -1099,6 +1218,9 @@ impl Scenario for C09 {
         if p.transport != 1 {
             let mut q = p.clone();
             q.transport = 1;
+            for s in segs_of(&mut q) {
+                s.ctl = 0;
+            }
             out.push(q);
         }
         // 4. simplify bytes: replace a non-1a byte (beyond the type byte) by 00
@@ -1140,16 +1262,16 @@ impl Scenario for C09 {
                 ("rs1090::source::beast::next_msg (async_stream reassembly state machine)", "real"),
                 ("the TCP, UDP and websocket arms of next_msg, obtained through connect / bind / connect_async on the simulated network (hook H8); the copy of the TCP arm behind DataSource::Verif (hook H2)", "real"),
                 ("tungstenite's websocket framing between the simulated peer and the websocket arm", "real"),
-                ("socket / network", "stub (SimPipe: AsyncRead with exact segment boundaries, delays on the simulated clock, EOF, errors; SimDatagrams: one segment = one datagram of at most 1024 bytes; websocket peer: one segment = one binary message of any size)"),
+                ("socket / network", "stub (SimPipe: AsyncRead with exact segment boundaries, delays on the simulated clock, EOF, errors; SimDatagrams: one segment = one datagram of up to 65507 bytes, cut to the caller's buffer as the socket call does, empty datagrams; websocket peer: one segment = one binary message of any size, whole or in two fragments, with pings, unsolicited pongs and empty binary messages in between)"),
                 ("consumer of the stream", "stub"),
                 ("ssh-tunnelled arms of next_msg (feature ssh)", "not exercised"),
             ],
             assumptions: vec![
                 "frames are well-formed as the property states: type byte 0x31/0x32/0x33, every 0x1a after the first doubled",
                 "pending frames are measured in un-escaped bytes against the 23-byte look-ahead",
-                "UDP: a datagram is a read chunk only up to the 1024 bytes the reader asks the socket for; longer datagrams are not generated. Websocket: a binary message of any size is a read chunk; pings, text and close messages are not part of a sequence of Beast frames and are not generated",
+                "UDP: one datagram (up to the 65507 bytes a datagram can carry; the plan's dgram_max models the sender's path) is one chunk of the partition. Websocket: one binary message of any size is one chunk; pings, pongs, fragmentation and empty messages are transport-level events that carry no byte of the stream and leave the partition unchanged; text and close messages are not generated",
             ],
-            fault_kinds: vec!["cut", "dribble", "big", "stall", "spurious_wake", "short_read", "eof", "reset"],
+            fault_kinds: vec!["cut", "dribble", "big", "stall", "spurious_wake", "short_read", "eof", "reset", "ws_ping", "ws_pong", "ws_fragmented", "ws_ping_between_fragments", "empty_message", "udp_datagram_gt_1024"],
             probes: vec![
                 "cut_inside_escape_pair",
                 "cut_between_1a_and_type",
